@@ -69,10 +69,10 @@ func c16Schemas() (ast.Schemas, *symir.Gen) {
 			continue
 		}
 		if i > 0 {
-			// thorough: the second field ranges over every kind too, with plain leaves (no default / constraint of its own)
+			// thorough: the second field is a plain scalar or a constant (more kinds there multiply the 6 kinds of the first field and do not complete in 25 minutes)
 			lean := *g
 			lean.Defaults, lean.Constraints = false, false
-			fields = append(fields, c16FieldOf(&lean, name, 3))
+			fields = append(fields, c16FieldOf(&lean, name, 2))
 			continue
 		}
 		fields = append(fields, c16Field(g, name))
